@@ -440,7 +440,9 @@ PROPS["C14"] = {
                    "every hit) while the others run or block; every result and the final state must be explained by "
                    "some serial order that respects real time. Leg 2: 8 threads x 10-120 rounds, shared pool with "
                    "replaceable races, deletions and the same event submitted by all threads at a barrier, random "
-                   "jitter at all points; offline: successful stores replayed in offset order through the model "
+                   "jitter at all points; a replacement storm (one writer replacing two addresses 1500-4000 times, six "
+                   "readers with online monitors: an occupied address never reads as empty, never holds two events, "
+                   "never goes back in time for one thread); offline: successful stores replayed in offset order through the model "
                    "(none may be forbidden at its commit position), every failed store and every read must fit some "
                    "committed state within its real-time window, final state equal. Leg 3: any run without progress "
                    "for 30 s is examined with gdb; only an exhibited wait cycle is a violation. Growth scenarios "
